@@ -117,6 +117,18 @@ def slin(t):
     return tuple(sorted(d2.items(), key=repr)), sg(c)
 
 
+def subst_wsub(t):
+    """wrapping subtraction read as subtraction (used where the operands are known not to wrap)"""
+    if not isinstance(t, tuple) or not t:
+        return t
+    r = tuple(subst_wsub(x) if isinstance(x, tuple) else x for x in t)
+    if r[0] == 'app' and r[1] == 'wsub':
+        return app('sub', r[2], r[3])
+    if r[0] == 'app':
+        return simplify(r)
+    return r
+
+
 def slot(i, plus=0):
     """BASE + (i + plus) * size_of::<T>() in distributed form"""
     d, c = lin(i)
@@ -273,7 +285,10 @@ def run(ctx, config='rel-all'):
         check('swap_remove', 'len := len - 1', len(st) == 1 and m.canon(st[0].val)[0] in (('app', 'wsub', LEN, C(1)), app('sub', LEN, C(1))))
         okb = len(idx) == 1 and idx[0].args[0] == SELF and idx[0].args[1] == ('param', 2) and bool(st) and m.r.events.index(idx[0]) < m.r.events.index(st[0])
         check('swap_remove', 'bounds-checked access self[index] happens before the length is lowered', okb)
-        check('swap_remove', 'the last element (len - 1) is read out', len(rd) == 1 and 'get_unchecked' in repr(rd[0].args[0]) and m.canon(rd[0].args[0][2][1] if rd[0].args[0][0] == 'call' else C(0))[0] in (('app', 'wsub', LEN, C(1)), app('sub', LEN, C(1))))
+        okr = len(rd) == 1 and (('get_unchecked' in repr(rd[0].args[0]) and m.canon(rd[0].args[0][2][1] if rd[0].args[0][0] == 'call' else C(0))[0] in (('app', 'wsub', LEN, C(1)), app('sub', LEN, C(1))))
+                                or m.eq(rd[0].args[0], slot(LEN, -1), rd[0].state.facts | {('lt', C(0), LEN)})
+                                or slin(m.canon(subst_wsub(rd[0].args[0]))[0]) == slin(slot(LEN, -1)))
+        check('swap_remove', 'the last element (len - 1) is read out', okr)
     # ---- drain constructor
     m = need('drain')
     if m:
